@@ -125,9 +125,13 @@ class Frame:
         self.vars = {}
 
 
+class IntDivByZero(Exception):
+    """the interpreted code divides an integer by zero (undefined behaviour in C++)"""
+
+
 def c_div(a, b):
     if b == 0:
-        raise ZeroDivisionError
+        raise IntDivByZero("integer division or remainder by zero (%s / 0)" % a)
     q = abs(a) // abs(b)
     return q if (a >= 0) == (b >= 0) else -q
 
